@@ -461,6 +461,7 @@ type run struct {
 	cbErr      error
 	tabMu      sync.Mutex // real mutex around the subscription table (two control tasks add to it)
 	unsubAllIn int64      // >0 while an UnsubAll call is in progress (its invocation stamp)
+	unsubAlls  [][2]int64 // invocation and return stamps of the UnsubAll calls that have returned
 	mu         sync.Mutex // real mutex: OnPubTimeout is invoked from several library goroutines
 	touts      []delivery
 	sends      []sendRec // every completed send of the run, from the simulator's observer (under mu)
@@ -511,6 +512,14 @@ func (r *run) addSub(buf int, spec Recv) *subState {
 	r.tabMu.Lock()
 	if r.unsubAllIn > 0 {
 		st.maybe = true
+	}
+	// ... or that began and ended while this Sub call was under way (an
+	// implementation in which one goroutine serves the queued commands of the
+	// others can finish somebody's UnsubAll before this Sub call returns)
+	for _, u := range r.unsubAlls {
+		if u[0] < st.createdRet && u[1] > st.createdInv {
+			st.maybe = true
+		}
 	}
 	r.subs[r.nsubs] = st
 	r.nsubs++
@@ -732,6 +741,7 @@ func (H) Execute(scAny any, cfg simrt.Config, st *core.Stats) (*simrt.Outcome, *
 						stamp := simrt.Stamp()
 						r.tabMu.Lock()
 						r.unsubAllIn = 0
+						r.unsubAlls = append(r.unsubAlls, [2]int64{cr.inv, stamp})
 						for i := 0; i < n0; i++ {
 							if r.subs[i].removedRet < 0 {
 								r.subs[i].removedRet = stamp
